@@ -51,7 +51,9 @@ def patterns(rng, tier):
                 [(5, 1), (2, 3)], [(6, 1), (4, 2), (3, 3)], [(3, 2), (2, 3)],
                 # three limits of which the SHORTEST period is the tightest, so that it is the one deciding while the log still holds
                 # entries older than the middle period
-                [(1, 1), (4, 2), (8, 3)], [(12, 3), (2, 1), (6, 2)]]
+                [(1, 1), (4, 2), (8, 3)], [(12, 3), (2, 1), (6, 2)],
+                # limits that share a period (also spelled differently in a configuration): every one of them holds, the strictest decides
+                [(2, 2), (8, 2)], [(8, 1), (2, 1)], [(6, 3), (2, 1), (8, 1)]]
     if tier == "thorough":
         lim_sets += [[(1, 10)], [(3, 5), (7, 10)], [(20, 10)], [(5, 4), (8, 7), (12, 10)], [(15, 3)], [(2, 6)], [(10, 2), (3, 10)], [(8, 3), (5, 6), (2, 9)]]
     for ls in lim_sets:
